@@ -73,7 +73,7 @@ def run(ctx):
                 ctx.violation("pool-dependent-output", "call %d (%s): SerialPool and MultiPool(2) with equal seeds and n_batches give "
                               "different outputs" % (k, a["kind"]), dict(desc, call=k))
                 break
-            if a["n"] > 0 and a["digest"] == d["digest"] and not a["kind"].startswith("prior"):
+            if a["n"] > 0 and a["digest"] == d["digest"] and not a["kind"].startswith(("prior", "read")):
                 ctx.evaluations += 1
                 ctx.violation("seed-ignored", "call %d (%s): a different seed gives bit-identical output" % (k, a["kind"]), dict(desc, call=k))
         # stream independence
